@@ -203,8 +203,9 @@ def main():
         "wall_s": round(time.time() - t0, 2),
         "violations": sum(viol_counts[k] for k in new_viol),
     }
-    os.makedirs(os.path.join(VERIF, "evidence"), exist_ok=True)
-    with open(os.path.join(VERIF, "evidence", prop + ".json"), "w") as f:
+    evdir = os.environ.get("VERIF_EVIDENCE_DIR") or os.path.join(VERIF, "evidence")
+    os.makedirs(evdir, exist_ok=True)
+    with open(os.path.join(evdir, prop + ".json"), "w") as f:
         json.dump(evidence, f, indent=1, default=repr, sort_keys=True)
         f.write("\n")
 
@@ -217,11 +218,12 @@ def main():
         print("KNOWN-FINDING: property=%s %s -- %s (seen %d times)" % (
             prop, key, known_keys[key].get("what", ""), viol_counts[key]))
     if new_viol:
-        os.makedirs(os.path.join(VERIF, "replays"), exist_ok=True)
+        rpdir = os.environ.get("VERIF_REPLAY_DIR") or os.path.join(VERIF, "replays")
+        os.makedirs(rpdir, exist_ok=True)
         for key in new_viol:
             rec = violations[key][0]
             dig = "%016x" % core.stable_hash(key)
-            path = os.path.join(VERIF, "replays", "%s-%s.json" % (prop, dig))
+            path = os.path.join(rpdir, "%s-%s.json" % (prop, dig))
             with open(path, "w") as f:
                 json.dump({"property": prop, "seed": seed, "tier": tier,
                            "count": viol_counts[key],
